@@ -14,6 +14,10 @@ def general_scenario(rng, i, tier, extra_prof=None):
     if m == 0:                      # self-locking chains with overload: "held still" instants
         force = True
         prof.update(p_overload=0.6, p_big_overload=0.3, p_ic_zero=0.5, p_control=1.0)
+        if rng.random() < 0.2:
+            # a creeping start: a very heavy output and a very fine step, so that the first recorded speeds are of the order of
+            # 1e-9 .. 1e-6 rad/s (the coupling is a product: it holds to rounding at ANY magnitude)
+            prof.update(heavy_output=1e6, kdt_lo=1e-10, kdt_hi=1e-8, p_ic_zero=1.0, p_overload=0.0, p_big_overload=0.0, n_lo=6, n_hi=20, p_int_inertias=0.0)
     elif m == 1:                    # long chains
         prof.update(max_stages=5 if tier == 'quick' else 6)
     elif m == 2:                    # continued runs
